@@ -1178,9 +1178,38 @@ def gen_derived(tree, out, report):
                         break
         if save != "out_keys.append(name)":
             raise Untranslatable("build_derived_outputs_runner: saved results")
+        # the whole function outside the dispatch chain is pinned: nothing else may be done per request, and the whitelist handling is the expected text
+        if [a.arg for a in b.args.args] != ["model", "whitelist", "jit_compile"]:
+            raise Untranslatable("signature of build_derived_outputs_runner")
+        lb = [ast.unparse(st) for st in loop[0].body]
+        if len(lb) != 3 or lb[0] != "req_type = request['request_type']" or not lb[1].startswith("if req_type == ") or lb[2] != "if request['save_results']:\n    out_keys.append(name)":
+            raise Untranslatable("build_derived_outputs_runner: the request loop does something besides dispatching and collecting the saved names")
+        outer = [ast.unparse(st) for st in b.body if not isinstance(st, ast.For) and not (isinstance(st, ast.Expr) and isinstance(st.value, ast.Constant))]
+        want_outer = ["graph_dict = {}", "out_keys = []", "cg = ComputeGraph(graph_dict)", "whitelist = whitelist or model._derived_outputs_whitelist",
+                      "if whitelist:\n    out_keys = whitelist\n    cg = cg.filter(targets=out_keys)", "out_func = cg.get_callable(targets=out_keys)",
+                      "if jit_compile:\n    out_func = jit(out_func)", "return (cg, out_func)"]
+        if outer != want_outer:
+            k_ = next((i for i, (x, y) in enumerate(zip(outer, want_outer)) if x != y), min(len(outer), len(want_outer)))
+            raise Untranslatable("build_derived_outputs_runner: statement is not the expected text: " + (outer[k_][:140] if k_ < len(outer) else "<missing>"))
         rows = ", ".join(f'("{k}", "{v}")' for k, v in table)
         return ("/-- `derived_outputs.py::build_derived_outputs_runner`: which builder serves which request type (source text of the call) -/\n"
-                f"def request_dispatch : List (String × String) := [{rows}]\n")
+                f"def request_dispatch : List (String × String) := [{rows}]\n\n"
+                "/-- `derived_outputs.py::build_derived_outputs_runner(model, whitelist)` and the callable it returns, applied to the run data (pinned text).\n"
+                "`out_keys` collects the names of the requests with `save_results`, in request order; `whitelist or model._derived_outputs_whitelist`;\n"
+                "with a whitelist the targets are the whitelist and `cg.filter(targets=…)` keeps the requests the targets depend on (computegraph,\n"
+                "modelled by `Derived.neededSet`); `cg.get_callable(targets=out_keys)` evaluates the graph in request order (`Derived.evalAll`) and\n"
+                "returns the targets, in the order of `out_keys` -/\n"
+                "def derived_outputs_runner (model : Model α) (whitelist : List String) (model_variables : Derived.RunData α) : Option (List (String × List α)) :=\n"
+                "  let out_keys := model.requests.foldl (fun (out_keys : List String) request => if request.save then out_keys ++ [request.name] else out_keys) []\n"
+                "  let whitelist := if whitelist.length != 0 then whitelist else model.whitelist\n"
+                "  if whitelist.length != 0 then do\n"
+                "    let out_keys := whitelist\n"
+                "    let need := Derived.neededSet model.requests out_keys\n"
+                "    let all ← Derived.evalAll model model_variables (model.requests.filter (fun r => need.contains r.name))\n"
+                "    out_keys.mapM (fun k => do let v ← alookup all k; pure (k, v))\n"
+                "  else do\n"
+                "    let all ← Derived.evalAll model model_variables model.requests\n"
+                "    out_keys.mapM (fun k => do let v ← alookup all k; pure (k, v))\n")
     attempt("request_dispatch", t_dispatch)
 
 
@@ -2911,6 +2940,7 @@ DHEADER = """-- GENERATED by harness/translate/gen_rates.py from /repo (summer2/
 import Summer.Model.JaxPrelude
 import Summer.Model.Lit
 import Summer.Model.Run
+import Summer.Model.Derived
 set_option linter.unusedVariables false
 namespace Summer.Generated.DerivedOut
 open Summer Summer.Run
